@@ -146,6 +146,8 @@ class Translator:
 
     def canon(self, q):
         q = strip_ns(q).strip()
+        for a, b in self.cfg.get('type_subst', []):
+            q = q.replace(a, b)
         ref = False; const = False; rref = False
         while True:
             q0 = q
@@ -244,6 +246,11 @@ class Translator:
                 for x in c.get('inner', []):
                     if x.get('kind') in ('CXXMethodDecl', 'CXXConstructorDecl'):
                         self.owner_of[x['id']] = qname
+            if k == 'ClassTemplateDecl' and c.get('name'):
+                for x in c.get('inner', []):
+                    if x.get('kind') == 'ClassTemplateSpecializationDecl' and x.get('completeDefinition'):
+                        targs = [strip_ns(a.get('type', {}).get('qualType', '')) for a in x.get('inner', []) if a.get('kind') == 'TemplateArgument']
+                        self.register_record(x, qname + '::' + c['name'] + '<' + ', '.join(targs) + '>')
 
     def emit_struct(self, qname):
         if qname not in self.records:
@@ -432,7 +439,10 @@ class Translator:
         for f, x in zip(fields, items):
             ft = self.ctype(self.qt(f))
             tmp = cx.tmp('init')
-            cx.pre.append(f'{ft.c} {tmp} = {self.E(x, cx)};')
+            if ft.ref:
+                cx.pre.append(f'{ft.c} *{tmp} = {self.addr_of(x, cx)};')
+            else:
+                cx.pre.append(f'{ft.c} {tmp} = {self.E(x, cx)};')
             parts.append(f'.{f["name"]} = {tmp}')
         return f'({t.c}){{{", ".join(parts)}}}'
 
@@ -652,6 +662,7 @@ class Translator:
     def resolve_enable_if(self, r):
         m = re.search(r',\s*([\w ]+)>::type$', r)
         if m: return m.group(1).strip()
+        if re.search(r'enable_if<[^,]*>::type$', r) or re.search(r'::value>::type$', r): return 'void'
         raise Unsupported(f'cannot resolve return type {r}')
 
     def E_CXXMemberCallExpr(self, n, cx):
@@ -950,6 +961,9 @@ class Translator:
             if c == rec.c and q in self.records: qn = q
         if qn is None: raise Unsupported(f'make_shared of unknown record {rec.c}')
         ctors = [c for c in self.records[qn].get('inner', []) if c.get('kind') == 'CXXConstructorDecl' and not c.get('isImplicit') and len(self.params_of(c)) == len(args)]
+        if not ctors and len(args) == 1 and rec.c in self.cfg.get('value_records', []):
+            self.externs[f'{rec.c}_alloc'] = f'{rec.c} *{rec.c}_alloc({", ".join(self.ghost_decls()) or "void"})'
+            return f'MAKE_SHARED_VALUE({rec.c}, {rec.c}_alloc({", ".join(self.ghost_args())}), {self.E(args[0], cx)})'
         if len(ctors) != 1: raise Unsupported(f'make_shared<{rec.c}>: cannot select constructor')
         ctor = ctors[0]
         self.enqueue(ctor)
@@ -988,6 +1002,10 @@ class Translator:
             mv = self.is_move_call(args[0])
             if mv is not None: return f'{t.c}_MOVE({self.addr_of(mv, cx)})'
             return f'{t.c}_COPY({self.addr_of(args[0], cx)})'
+        if t.cls == 'function' and len(args) == 1:
+            at = self.ctype(self.qt(self.skip(args[0])))
+            if at.cls in ('record', 'lambda'):
+                return f'CALLBACK_FROM_FUNCTOR({at.c}, {self.addr_of(args[0], cx)})'
         if t.cls in ('builtin',) and len(args) == 1:
             return self.E(args[0], cx)
         if t.cls in ('listit', 'vecit') and len(args) == 1:
